@@ -1,7 +1,8 @@
 // genfixture writes the fundraising genesis state that the C20 live-node check starts its single-node chain from:
 // three auctions (an open fixed price one, an open batch one with a bid, a fixed price one in its vesting period with a
 // matched bid and two instalments), with the given account allow-listed in all of them - the only way to get an
-// allow-list entry into a chain built with default settings.  usage: genfixture <repo> <out.json> <bech32 account>
+// allow-list entry into a chain built with default settings; a second account, when given, has a bid of its own in the
+// batch auction.  usage: genfixture <repo> <out.json> <bech32 account> [<second account>]
 package main
 
 import (
@@ -54,6 +55,16 @@ func main() {
 		types.NewBid(1, acc, 1, types.BidTypeBatchWorth, dec("0.8"), sdk.NewInt64Coin("denomb", 40), false),
 		types.NewBid(2, acc, 1, types.BidTypeFixedPrice, dec("2.0"), sdk.NewInt64Coin("denomb", 80), true),
 	}
+	second := int64(0)
+	if len(os.Args) > 4 {
+		bob, err := sdk.AccAddressFromBech32(os.Args[4])
+		if err != nil {
+			panic(err)
+		}
+		gs.AllowedBidderList = append(gs.AllowedBidderList, types.NewAllowedBidder(1, bob, math.NewInt(500)))
+		gs.BidList = append(gs.BidList[:1], types.NewBid(1, bob, 2, types.BidTypeBatchWorth, dec("0.9"), sdk.NewInt64Coin("denomb", 30), false), gs.BidList[1])
+		second = 30
+	}
 	gs.VestingQueueList = []types.VestingQueue{
 		types.NewVestingQueue(2, acc, sdk.NewInt64Coin("denomb", 20), tm("2021-01-01T00:00:00Z"), true),
 		types.NewVestingQueue(2, acc, sdk.NewInt64Coin("denomb", 60), tm("2031-06-01T00:00:00Z"), false),
@@ -67,6 +78,6 @@ func main() {
 		panic(err)
 	}
 	// the escrow accounts the fixture's records refer to, for the bank genesis
-	fmt.Printf("%s 1000denoma\n%s 40denomb\n%s 60denomb\n", types.SellingReserveAddress(0), types.PayingReserveAddress(1), types.VestingReserveAddress(2))
+	fmt.Printf("%s 1000denoma\n%s %ddenomb\n%s 60denomb\n", types.SellingReserveAddress(0), types.PayingReserveAddress(1), 40+second, types.VestingReserveAddress(2))
 	fmt.Printf("%s 1000denoma\n", types.SellingReserveAddress(1))
 }
